@@ -314,7 +314,8 @@ func cellLength(data []byte, pos int, typ byte, metadata uint16) (int, error) {
 // and return the Buffer.
 func printTimestamp(v uint32) *bytes.Buffer {
 	if v == 0 {
-		return bytes.NewBuffer(ZeroTimestamp)
+		// a private copy: the caller hands the bytes out
+		return bytes.NewBuffer(append([]byte(nil), ZeroTimestamp...))
 	}
 
 	t := time.Unix(int64(v), 0).Local()
